@@ -13,6 +13,16 @@
    - C14_run_union / C14_run_history_free: for any sequence of calls sharing one word, by induction over the sequence, the
      final word is the entry word OR the union of one raised set per call, each accepted from a clear word; and the same
      values are accepted from any other entry word, the final word being that word OR the same union.
+   Scope of the judge, and what closes the gap. [judge] looks at ONE call at a time. Where the expectation admits several
+   outcomes (two NaN operands: either may be propagated; min/max of equal values: either operand; NaN choices inside a
+   sum; the predicate expectations) an implementation that picked the outcome DEPENDING ON THE ENTRY WORD would pass the
+   judge call by call and still violate "the returned value and the set of newly raised bits are the same whatever the
+   status word contained on entry". That the SAME call returns the same values and raises the same flags under different
+   entry words is therefore checked separately by the runner's cross-entry comparison (lib/runner.py, cross_entry_check):
+   every case of the status stream is executed under six entry words, and each answer is compared - values and newly
+   raised bits - with its entry-word-0 twin; a difference is a finding irrespective of the judge's verdicts. This is a
+   trusted harness fact, not a Coq theorem. (For single-outcome expectations the theorems below already imply it:
+   C14_accepted_iff + C15_accepted_unique.)
    Not covered here: that the Rust code behaves this way is established only by the correspondence run (every case is
    executed with several entry words, and random histories share one word). All theorems are axiom-free. *)
 From Coq Require Import ZArith Bool List.
